@@ -356,8 +356,20 @@ def scan_c20():
             raw = [src.count("\n", 0, mm.start()) + 1 for mm in re.finditer(r"\.\s*inner\b|\bborrow(_mut)?\s*\(|\.\s*(read|write)\s*\(\s*\)", m)]
             execs = re.findall(r"\.\s*exec\s*\(([^)]*)\)", m)
             bad_exec = [a for a in execs if a.strip() not in ("&edge", "e")]
-            ok = not chains and not raw and not bad_exec
-            why = "" if ok else "adjacency guard / lock access at lines %s; exec arguments %s" % (sorted(set(chains + raw)), bad_exec)
+            # every loop that hands edges to the closure pulls them lazily from the node's own iterator, so that an
+            # edge is read from the adjacency list at the moment it is yielded (not from a snapshot taken earlier)
+            stale = []
+            for lp in gen.find_loops(m):
+                body_txt = m[lp["hdr_end"]:lp["body_close"]]
+                if ".exec(" in body_txt.replace(" ", "") and lp["kw"] == "for":
+                    hdr = gen.norm_ws(m[lp["start"]:lp["hdr_end"]])
+                    if not re.match(r"for \w+ in \w+ ?\. ?(iter|iter_out|iter_in) ?\( ?\)$", hdr):
+                        stale.append("line %d: `%s`" % (src.count("\n", 0, lp["start"]) + 1, hdr))
+                elif ".exec(" in body_txt.replace(" ", "") and lp["kw"] != "for" and not any(
+                        l2["start"] > lp["start"] and l2["body_close"] < lp["body_close"] and ".exec(" in m[l2["hdr_end"]:l2["body_close"]].replace(" ", "") for l2 in gen.find_loops(m)):
+                    stale.append("line %d: closure called outside a `for edge in node.iter*()` loop" % (src.count("\n", 0, lp["start"]) + 1))
+            ok = not chains and not raw and not bad_exec and not stale
+            why = "" if ok else "adjacency guard / lock access at lines %s; exec arguments %s; edges not pulled from the node iterator when yielded: %s" % (sorted(set(chains + raw)), bad_exec, stale)
             obls.append(dict(id=oid, flavour=fl, ok=ok, why=why))
         # iterator structs must not hold a guard
         p = os.path.join(d, "mod.rs")
